@@ -700,9 +700,9 @@ func reaches(b *ssa.BasicBlock, i int, target ssa.Instruction) bool {
 // successive calls) may use the same font or metrics value.  Frozen list, by
 // type and method name; a method that disappears is reported in evidence only.
 var readOnlyMethods = map[string][]string{
-	"type1.Font":    {"Write", "WritePDF", "NumGlyphs", "GlyphList", "BuiltinEncoding", "WidthsMapPDF", "FontBBox", "FontBBoxPDF", "GlyphBBoxPDF", "GlyphWidthPDF"},
-	"type1.Glyph":   {"BBox"},
-	"afm.Metrics":   {"Write", "NumGlyphs", "GlyphList", "FontBBoxPDF", "GlyphWidthPDF"},
+	"type1.Font":     {"Write", "WritePDF", "NumGlyphs", "GlyphList", "BuiltinEncoding", "WidthsMapPDF", "FontBBox", "FontBBoxPDF", "GlyphBBoxPDF", "GlyphWidthPDF"},
+	"type1.Glyph":    {"BBox"},
+	"afm.Metrics":    {"Write", "NumGlyphs", "GlyphList", "FontBBoxPDF", "GlyphWidthPDF"},
 	"type1.FontInfo": {"PostScriptName"},
 }
 
